@@ -538,7 +538,7 @@ class SigmaCorrelationRule(SigmaRuleBase, ProcessingItemTrackingMixin):
         if correlation_type is not None:
             try:
                 correlation_type = SigmaCorrelationType[correlation_type.upper()]
-            except KeyError:
+            except (KeyError, AttributeError):
                 errors.append(
                     sigma_exceptions.SigmaCorrelationTypeError(
                         f"'{ correlation_type }' is no valid Sigma correlation type", source=source
